@@ -239,6 +239,7 @@ CHdr(i, end) ==
 
 CBody(i, kind) ==
   /\ Live /\ st[i].cph = "open" /\ kind \in CKinds
+  /\ st[i].cout # "rst"                    \* the proxy has reset the stream: the client peer cannot send on it any more
   /\ kind \in {"data", "data_end"} => st[i].cn < MaxData
   /\ LET s == st[i]
          isData == kind \in {"data", "data_end"}
